@@ -83,6 +83,7 @@ WITNESSES = [
 # full layout would look for the MBI, a word that reads as (a) a plain image type, (b) a signed image type with a
 # custom TrustZone block
 LENIENT_MBI = "bimg-later-start-image-claimed-by-lenient-plain-mbi-match"
+AUTODETECT_LENIENT_MBI = "bimg-autodetect-foreign-image-claimed-by-lenient-plain-mbi-match"
 WITNESSES_MBI = [
     {"family": "mcxn947", "memory": "flexspi_nor", "init_segment": "fcb", "word": 0x00000000},
     {"family": "mimxrt595s", "memory": "flexspi_nor", "init_segment": "fcb", "word": 0x00002004,
@@ -881,6 +882,24 @@ def _judge_parse(ctx, case, raw, plan, image):
             good = False
     if not good:
         return False
+    # auto-detection (no memory type named): whichever memory type SPSDK settles on, parsing has to recover the segments
+    if init == 0:
+        ctx.count("autodetect_parses")
+        try:
+            auto = BootableImage.parse(image, family=fam, revision=rev)
+            got_a = {s.NAME.label: bytes(s.export()) for s in auto.segments}
+            lost = sorted(n for n, data in expected.items() if n not in got_a or not bimg_ref.recovered_equal(n, data, got_a[n], fb))
+            chosen = auto.mem_type.label
+        except SPSDKError as e:
+            lost, chosen, got_a = sorted(expected), "none: " + core.exc_brief(e)[:120], {}
+        if lost:
+            key = "bimg-autodetected-memory-type-loses-segments"
+            if chosen != mem and "mbi" in got_a and "mbi" not in expected:
+                key = AUTODETECT_LENIENT_MBI  # the first memory type of the database "recognises" a plain MBI in foreign bytes
+            ctx.violation(key, _witness(case, plan, {
+                "where": "api parse without a memory type", "memory_type_chosen": chosen, "memory_type_of_the_image": mem,
+                "segments_not_recovered": lost, "parsed": sorted(got_a)}))
+            return False
     if any(st == "not-idempotent" for n, st in plan["status"].items() if n in expected):
         ctx.count("reexport_skipped_container_class_not_idempotent")
         ctx.note("container_class_not_idempotent", sorted(plan["meta"].get(n) for n, st in plan["status"].items() if st == "not-idempotent"))
@@ -918,6 +937,20 @@ def _build_api(ctx, case, raw, plan, wd, sig):
             ctx.violation("bimg-second-export-of-the-same-object-differs", _witness(case, plan, {"first": len(image), "second": len(second),
                                                                                           "first_diff": next((i for i, (x, y) in enumerate(zip(image, second)) if x != y), None)}))
             return None
+        # the same object visits another initial offset and comes back: the image is a function of the segments and of
+        # the CURRENT initial offset only (segments cut off by an earlier, later offset belong to the image again)
+        fixed = sorted({o for _n, o in bimg_ref.segment_starts(raw) if o >= 0 and o != plan["init"]})
+        if fixed:
+            visit = fixed[ctx.rng.randrange(len(fixed))]
+            bimg.init_offset = visit
+            bimg.init_offset = plan["init"]
+            ctx.count("init_offset_histories")
+            back = bimg.export() if bimg.init_offset == plan["init"] else None
+            if back != image:
+                ctx.violation("bimg-image-depends-on-earlier-initial-offsets", _witness(case, plan, {
+                    "visited": visit, "init_offset_after": bimg.init_offset, "first": len(image), "after": None if back is None else len(back),
+                    "first_diff": None if back is None else next((i for i, (x, y) in enumerate(zip(image, back)) if x != y), None)}))
+                return None
     except SPSDKError as e:
         if not _refusal_expected(raw, plan):
             ctx.violation("bimg-merge-refuses-well-formed-segments", _witness(case, plan, {"where": "api", "error": core.exc_brief(e)}))
